@@ -368,14 +368,19 @@ func (dq *Deque[T]) addAfter(value T, after *element[T]) error {
 	it.prev.next = it
 	it.next.prev = it
 
-	if after.isRoot() {
-		dq.nfront.Signal()
-	}
-	if after.prev.isRoot() {
-		dq.nback.Signal()
-	}
-	dq.updates.Signal()
+	dq.wakeAll()
 	return nil
+}
+
+// wakeAll wakes every blocked operation after the deque changed. Callers
+// must hold the lock. Every waiter re-checks its own condition when it
+// wakes up, so waking all of them is always safe, while picking a
+// single condition variable (or a single waiter) by the position of the
+// change misses waiters at the other end.
+func (dq *Deque[T]) wakeAll() {
+	dq.nfront.Broadcast()
+	dq.nback.Broadcast()
+	dq.updates.Broadcast()
 }
 
 // while this method logically supports removing
@@ -387,13 +392,7 @@ func (dq *Deque[T]) pop(it *element[T]) (out T, _ bool) {
 		return out, false
 	}
 
-	if it.prev.isRoot() {
-		defer dq.nfront.Signal()
-	}
-	if it.next.isRoot() {
-		defer dq.nback.Signal()
-	}
-	defer dq.updates.Broadcast()
+	defer dq.wakeAll()
 
 	dq.tracker.remove()
 
